@@ -499,6 +499,8 @@ v('C08 C11', 'fire', 'filters.py', 'G @ np.diag(q**2) @ G.transpose()', 'G @ np.
 # ------------------------------------------------------------------ filters C09 C10 C11 C12
 F = 'filters.py'
 v('C09 C10', 'fire', F, 'np.hstack([np.empty(0)] + [', 'np.hstack([', 'F1 repair reverted', every=True)
+v('C09 C10', 'fire', F, 'np.hstack([np.empty(0)] + [', 'np.hstack([np.empty(1)] + [', 'survey: an uninitialised epoch merged in', every=True)
+v('C09 C10', 'silent', F, 'np.hstack([np.empty(0)] + [', 'np.hstack([np.array([])] + [', 'another empty seed', every=True)
 v('C09', 'fire', F, '        if next_increment_index == increments_index:\n            next_increment_index += 1\n', '', 'progress guard removed')
 v('C09', 'fire', F, 'measurement_times = np.sort(np.unique(measurement_times))', 'measurement_times = np.sort(measurement_times)')
 v('C09', 'fire', F, 'innovations_times[name].append(measurement_time)', 'innovations_times[name].append(time)')
